@@ -1,7 +1,315 @@
-//! C12 — not implemented yet.
-use vcore::Ctx;
+//! C12 — every token reports where it really is in the source.
+//!
+//! Generator: corpus files re-laid with generated separators and injected
+//! comments (multi-byte, CRLF, several per line, before the first token,
+//! multi-line blocks) and multi-byte string literals.
+//! Oracle (independent of the lexer): for every token and comment the
+//! collector reports, `src[pos..pos+length] == text`, `line`/`column`
+//! recomputed from `pos` (column counted in characters) equal the reported
+//! ones, and positions strictly increase in collector order.
 
-pub fn run(_ctx: &Ctx) {
-    println!("INCONCLUSIVE property=C12: check not implemented");
-    std::process::exit(2);
+use std::path::Path;
+use vcore::{CaseCfg, Ctx, Draw, Outcome, hash_str, json};
+use vgen::relayout::{self, LayoutOpts, PieceKind};
+use veryl_parser::Parser;
+use veryl_parser::token_collector::TokenCollector;
+use veryl_parser::veryl_token::TokenSource;
+use veryl_parser::veryl_walker::VerylWalker;
+
+const MB_STR: &[&str] = &["日本語", "é", "🦀x", "a→b", "ß ß", "Ω"];
+
+pub struct PosReport {
+    pub tokens: usize,
+    pub comments: usize,
+}
+
+/// The oracle.  `Err((signature, message))` on the first disagreement.
+pub fn check_positions(src: &str) -> Result<Option<PosReport>, (String, String)> {
+    let Ok(parser) = Parser::parse(src, &Path::new("c12.veryl")) else {
+        return Ok(None);
+    };
+    // the parser analyses a newline-terminated copy
+    let mut text = src.to_string();
+    if !text.ends_with('\n') {
+        text.push('\n');
+    }
+    let mut col = TokenCollector::new(true);
+    col.veryl(&parser.veryl);
+    // independent position table: byte offset -> (line, char column)
+    let mut line_starts = vec![0usize];
+    for (i, b) in text.bytes().enumerate() {
+        if b == b'\n' {
+            line_starts.push(i + 1);
+        }
+    }
+    let locate = |pos: usize| -> (u32, u32) {
+        let li = match line_starts.binary_search(&pos) {
+            Ok(i) => i,
+            Err(i) => i - 1,
+        };
+        let colc = text[line_starts[li]..pos].chars().count();
+        (li as u32 + 1, colc as u32 + 1)
+    };
+    let mut prev_end: Option<usize> = None;
+    let mut rep = PosReport {
+        tokens: 0,
+        comments: 0,
+    };
+    for t in &col.tokens {
+        if !matches!(t.source, TokenSource::File { .. }) {
+            continue;
+        }
+        let ttext = t.to_string();
+        let is_comment = ttext.starts_with("//") || ttext.starts_with("/*");
+        let kind = if is_comment { "comment" } else { "token" };
+        if is_comment {
+            rep.comments += 1;
+        } else {
+            rep.tokens += 1;
+        }
+        let pos = t.pos as usize;
+        let len = t.length as usize;
+        if len != ttext.len() {
+            return Err((
+                format!("{kind}-length"),
+                format!("{kind} {ttext:?}: length {len} but text has {} bytes", ttext.len()),
+            ));
+        }
+        let slice = text.get(pos..pos + len);
+        if slice != Some(ttext.as_str()) {
+            return Err((
+                format!("{kind}-pos"),
+                format!(
+                    "{kind} {ttext:?} reports pos={pos} length={len}, but the source has {:?} there",
+                    slice
+                ),
+            ));
+        }
+        let (l, c) = locate(pos);
+        if t.line != l {
+            if !is_comment && ttext.starts_with('/') && slash_after_comment_newline(&text, pos) {
+                return Err((
+                    "line-lost:comment-newline-slash".into(),
+                    format!(
+                        "token {ttext:?} at byte {pos} directly follows a newline after a comment: the lexer reports line {} for it (and one line too few for everything after it), it is on line {l}",
+                        t.line
+                    ),
+                ));
+            }
+            return Err((
+                format!("{kind}-line"),
+                format!("{kind} {ttext:?} at byte {pos}: reports line {} but is on line {l}", t.line),
+            ));
+        }
+        if t.column != c {
+            return Err((
+                format!("{kind}-column"),
+                format!(
+                    "{kind} {ttext:?} at byte {pos} (line {l}): reports column {} but starts at character column {c}",
+                    t.column
+                ),
+            ));
+        }
+        if let Some(pe) = prev_end
+            && pos < pe
+        {
+            return Err((
+                format!("{kind}-order"),
+                format!("{kind} {ttext:?} at byte {pos} is reported after text ending at byte {pe}"),
+            ));
+        }
+        prev_end = Some(pos + len);
+        // end position, for texts not ending in a newline
+        if !ttext.ends_with('\n') && !ttext.is_empty() {
+            let last_char_start = pos + len - ttext.chars().next_back().unwrap().len_utf8();
+            let (el, ec) = locate(last_char_start);
+            if t.end_line() != el || t.end_column() != ec {
+                return Err((
+                    format!("{kind}-end"),
+                    format!(
+                        "{kind} {ttext:?}: reports end {}:{} but its last character is at {el}:{ec}",
+                        t.end_line(),
+                        t.end_column()
+                    ),
+                ));
+            }
+        }
+    }
+    Ok(Some(rep))
+}
+
+/// `text[pos]` is a `/` at the very start of a line, and the nearest
+/// non-blank text before it is the end of a comment.
+fn slash_after_comment_newline(text: &str, pos: usize) -> bool {
+    if pos == 0 || text.as_bytes()[pos - 1] != b'\n' {
+        return false;
+    }
+    let before = text[..pos].trim_end();
+    if before.ends_with("*/") {
+        return true;
+    }
+    let line = before.rsplit('\n').next().unwrap_or("");
+    line.contains("//")
+}
+
+fn gen_case(d: &mut Draw, corpus: &[(String, String)]) -> Option<(String, String, Vec<String>)> {
+    let (name, src) = &corpus[d.below_usize(corpus.len())];
+    let mut pieces = relayout::pieces(src)?;
+    let mut o = LayoutOpts::draw(d);
+    // forced features for this property
+    if o.inject_per_mille == 0 && d.chance(3, 4) {
+        o.inject_per_mille = 60;
+    }
+    let mut classes = vec![];
+    // multi-byte string literals
+    if d.chance(1, 2) {
+        let mut n = 0;
+        for p in pieces.iter_mut() {
+            if p.kind == PieceKind::Token && p.text.starts_with('"') && p.text.len() >= 2 && d.chance(1, 2) {
+                p.text = format!("\"{}\"", d.pick(MB_STR));
+                n += 1;
+            }
+        }
+        if n > 0 {
+            classes.push("multibyte_string".to_string());
+        }
+    }
+    let text = relayout::relayout(d, &pieces, &o);
+    if o.newline != 0 {
+        classes.push("crlf".into());
+    }
+    if o.leading_comment {
+        classes.push("leading_comment".into());
+    }
+    Some((name.clone(), text, classes))
+}
+
+pub fn run(ctx: &Ctx) {
+    let corpus: Vec<(String, String)> = vcore::util::corpus_files()
+        .into_iter()
+        .filter_map(|p| {
+            let s = std::fs::read_to_string(&p).ok()?;
+            Some((p.to_string_lossy().into_owned(), s))
+        })
+        .collect();
+    assert!(corpus.len() > 50, "corpus not found");
+
+    // sub 1: pristine corpus (every file)
+    if !ctx.replay_mode() {
+        for (name, src) in &corpus {
+            let name = name.clone();
+            let src = src.clone();
+            let corpus_text = src.clone();
+            let out = std::thread::Builder::new()
+                .stack_size(16 << 20)
+                .spawn(move || match check_positions(&src) {
+                    Ok(Some(r)) => Outcome::pass(
+                        hash_str(&src),
+                        src.contains("//") && !src.is_ascii(),
+                        vec!["corpus_pristine".into()],
+                        format!("{name}: {} tokens, {} comments", r.tokens, r.comments),
+                    ),
+                    Ok(None) => Outcome::skip("corpus file does not parse"),
+                    Err((sig, msg)) => Outcome::fail(sig, msg, json!({"file": name})),
+                })
+                .unwrap()
+                .join()
+                .unwrap();
+            ctx.record("text", out, json!({"text": corpus_text}));
+        }
+    }
+
+    // sub: explicit texts (reproducers of listed findings, recorded cases)
+    ctx.run_payloads("text", |p| {
+        let text = p.get("text").and_then(|t| t.as_str()).unwrap_or("").to_string();
+        std::thread::Builder::new()
+            .stack_size(16 << 20)
+            .spawn(move || match check_positions(&text) {
+                Ok(Some(r)) => Outcome::pass(hash_str(&text), true, vec!["explicit".into()], format!("{} tokens", r.tokens)),
+                Ok(None) => Outcome::skip("does not parse"),
+                Err((sig, msg)) => Outcome::fail(sig, msg, json!({"text": text})),
+            })
+            .unwrap()
+            .join()
+            .unwrap()
+    });
+
+    // sub 2: re-laid corpus
+    let n = ctx.scale(6000, 300_000);
+    ctx.run("relayout", CaseCfg::cases(n).choices(6000).stack_mb(16), |d| {
+        let Some((name, text, mut classes)) = gen_case(d, &corpus) else {
+            return Outcome::skip("corpus file does not tokenise");
+        };
+        match check_positions(&text) {
+            Ok(None) => Outcome::skip("re-laid text does not parse"),
+            Ok(Some(r)) => {
+                let mb_comment = !text.is_ascii();
+                // two comments in one run = two comments separated only by whitespace
+                let multi = has_comment_run(&text);
+                if mb_comment {
+                    classes.push("multibyte".into());
+                }
+                if multi {
+                    classes.push("comment_run".into());
+                }
+                Outcome::pass(
+                    hash_str(&text),
+                    (mb_comment || multi) && r.comments > 0,
+                    classes,
+                    format!("// from {name}\n{text}"),
+                )
+            }
+            Err((sig, msg)) => Outcome::fail(sig, msg, json!({"from": name, "text": text})),
+        }
+    });
+
+    ctx.assume("line/column oracle: line = 1 + number of '\\n' before pos; column = 1 + characters since the last '\\n'");
+    ctx.assume("generated newlines are \\n or \\r\\n (a lone \\r is not generated)");
+    ctx.finish(
+        "exploration",
+        "corpus files (319) re-laid with generated separators, injected line/block/doc comments (multi-byte, CRLF, several per run, before the first token) and multi-byte string literals; non-trivial = parsed text with >=1 comment that contains multi-byte text or a run of >=2 comments; distinct by text hash",
+    );
+}
+
+fn has_comment_run(text: &str) -> bool {
+    // crude but independent: "*/" or a line comment end followed (after whitespace) by another comment start
+    let b = text.as_bytes();
+    let mut i = 0;
+    let mut last_comment_end: Option<usize> = None;
+    while i + 1 < b.len() {
+        if b[i] == b'"' {
+            // skip string literal
+            i += 1;
+            while i < b.len() && b[i] != b'"' {
+                if b[i] == b'\\' {
+                    i += 1;
+                }
+                i += 1;
+            }
+            i += 1;
+            continue;
+        }
+        if b[i] == b'/' && (b[i + 1] == b'/' || b[i + 1] == b'*') {
+            if let Some(e) = last_comment_end
+                && text[e..i].trim().is_empty()
+            {
+                return true;
+            }
+            if b[i + 1] == b'/' {
+                while i < b.len() && b[i] != b'\n' {
+                    i += 1;
+                }
+            } else {
+                i += 2;
+                while i + 1 < b.len() && !(b[i] == b'*' && b[i + 1] == b'/') {
+                    i += 1;
+                }
+                i += 2;
+            }
+            last_comment_end = Some(i.min(b.len()));
+            continue;
+        }
+        i += 1;
+    }
+    false
 }
